@@ -13,7 +13,7 @@ CONFIG = dict(
                  "a history pushes fewer than 2^64 wire bytes in total (bytes_held.saturating_add never saturates)",
                  "contiguity: pushes abut (the API's contract; enforced by debug_assert in the dev profile, where no hypothesis is needed)"],
     manifest=dict(
-        text="Lean 4 theorems over an executable model of the replay ring inside TransferControl (chunks carry their wire bodies; histories of any length, both profiles): the ring always is a suffix of the chunks pushed since the last advance (oldest-first eviction, bodies verbatim); under abutting pushes (always, in the dev profile) it is one contiguous run; bytes_held = sum of retained wire lengths and more than one chunk is retained only within capacity (capacity 0 and single oversized chunks included), with the eviction guard re-extracted from ReplayRing::push; the newest chunk is always retained; request_resume is accepted iff not cancelled, current file, and the offset is a retained boundary / the trailing edge / zero on an empty ring; on acceptance replay_chunks_from(off) is a contiguous suffix starting exactly at off, ending at the newest chunk, empty only at the trailing edge, unchanged until the next push/advance; acceptance installs peer and pending resume and moves acked only within (acked, sent]; wait_for_reconnect hands the pending resume over exactly once; advance empties the ring, resets offsets and discards the pending resume. Tied to /repo by fact extraction plus a differential run: exhaustive enumeration of all push/resume/reconnect/advance/cancel/replay sequences up to length 4-5 over a 21-op alphabet for capacities 0,2,3,2^64-1 and up to length 7 (thorough 8) over an 8-op alphabet, random 200-op histories (logical != wire lengths, hostile offsets), with oracles recomputing suffix/bound/gaplessness from the push log.",
+        text="Lean 4 theorems over an executable model of the replay ring inside TransferControl (chunks carry their wire bodies; histories of any length, both profiles): the ring always is a suffix of the chunks pushed since the last advance (oldest-first eviction, bodies verbatim); under abutting pushes (always, in the dev profile) it is one contiguous run; bytes_held = sum of retained wire lengths and more than one chunk is retained only within capacity (capacity 0 and single oversized chunks included), with the eviction guard re-extracted from ReplayRing::push; the newest chunk is always retained; request_resume is accepted iff not cancelled, current file, and the offset is a retained boundary / the trailing edge / zero on an empty ring; on acceptance replay_chunks_from(off) is a contiguous suffix starting exactly at off, ending at the newest chunk, empty only at the trailing edge, unchanged until the next push/advance; acceptance installs peer and pending resume and moves acked only within (acked, sent]; wait_for_reconnect hands the pending resume over exactly once; advance empties the ring, resets offsets and discards the pending resume. Tied to /repo by fact extraction plus a differential run: exhaustive enumeration of all push/resume/reconnect/advance/cancel/replay sequences up to length 4-5 over a 21-op alphabet for capacities 0,2,3,2^64-1 and up to length 7 (thorough 8) over an 8-op alphabet, random 200-op histories (logical != wire lengths, hostile offsets), with oracles recomputing suffix/bound/gaplessness from the push log. Concurrent callers: one mutex acquisition per method (re-extracted, theorem single_section_ops) and a racing sub-family whose outcomes must be sequentially explainable.",
         note="Lean kernel; axioms propext/Classical.choice/Quot.sound only; extractor + harness + driver trusted; VecDeque/Mutex not verified; offsets whose chunk end exceeds 2^64 are outside the theorems (the model still predicts the code's wrap/panic there and the correspondence checks it).",
         technique="Lean 4 proof (ring invariants, refinement to the push log) + regenerated eviction guard + exhaustive small-scope and random differential correspondence"),
 )
